@@ -72,6 +72,28 @@ def hostile_ledger(rng, extreme):
     tickers = rng.sample(["A", "B", "ZED", "Q9"], rng.randint(1, 3))
     n = rng.randint(1, 12)
     txs = []
+    if rng.random() < 0.25:
+        # degenerate days: several lines of one security on one or two dates with zero / tiny quantities and prices, so
+        # that same-day merging, averaging and apportioning see zero totals
+        tk = rng.choice(tickers)
+        D0 = rng.choice([dt.date(2020, 2, 28), dt.date(2024, 3, 30), dt.date(2015, 11, 20)])
+        small = ["0", "0", "0", "0.00000001", "1", "3"] if not extreme else ["0", "0", "0.0000000000000000000000000001", "1"]
+        for _ in range(rng.randint(2, 7)):
+            k = rng.choice(["BUY", "BUY", "BUY", "SELL", "SELL", "DIVIDEND", "ACCUMULATION", "CAPRETURN", "SPLIT"])
+            d_ = D0 + dt.timedelta(days=rng.choice([0, 0, 0, 1]))
+            t = {"date": iso(d_), "ticker": tk, "kind": k}
+            if k in ("BUY", "SELL"):
+                t.update(amount=rng.choice(small), price=[rng.choice(small + ["100"]), "GBP"], fees=[rng.choice(["0", "0", "1"]), "GBP"])
+            elif k == "DIVIDEND":
+                t.update(total=[rng.choice(small), "GBP"], tax=["0", "GBP"])
+            elif k == "ACCUMULATION":
+                t.update(amount=rng.choice(small), total=[rng.choice(small), "GBP"], tax=["0", "GBP"])
+            elif k == "CAPRETURN":
+                t.update(amount=rng.choice(small), total=[rng.choice(small), "GBP"], fees=["0", "GBP"])
+            else:
+                t.update(ratio=rng.choice(["2", "1", "0.5"]))
+            txs.append(t)
+        return txs
     D = rng.choice([dt.date(1, 1, 1), dt.date(1899, 12, 25), dt.date(1900, 4, 5), dt.date(2020, 2, 28), dt.date(2100, 4, 1), dt.date(9999, 11, 1),
                     dt.date(2024, 3, 30), dt.date(2015, 11, 20)])
     for _ in range(n):
@@ -257,7 +279,7 @@ def run_convert_soup(desc):
     junk = ["", "--", "$", "$-", "1,,2", "abc", "1e9", "-$5", "$1,234.56", "99999999999999999999999999999999", "0.0000000000000000000000000000001",
             None, 5, True, [], {}]
     dates = ["01/15/2024", "13/45/2024", "02/30/2023", "1/1/1", "", "as of", "01/15/2024 as of", "as of 01/15/2024", "01/15/2024 as of 02/30/2024",
-             "12/31/9999", "01/01/0001", None, 7]
+             "12/31/9999", "01/01/0001", "01/03/-262143", "12/30/262142", "01/01/-1", "01/05/0000", None, 7]
     for _ in range(desc["n"]):
         k = rng.random()
         if k < 0.2:
@@ -271,6 +293,17 @@ def run_convert_soup(desc):
                 if rng.random() < 0.1:
                     r.pop(rng.choice(list(r)), None)
             tj = json.dumps({"BrokerageTransactions": rows} if rng.random() < 0.9 else rows)
+        if rng.random() < 0.15:
+            # an RSU deposit row at a calendar extreme with a well-formed awards file: the 7-day look-back has to do
+            # date arithmetic at the edge of what the date type can represent
+            d_ext = rng.choice(["01/03/-262143", "01/01/-262143", "12/30/262142", "01/05/0000", "01/02/0001", "12/31/9999", "01/01/-1"])
+            tj = json.dumps({"BrokerageTransactions": [{"Date": d_ext, "Action": "Stock Plan Activity", "Symbol": "XYZZ", "Description": "RSU",
+                                                        "Quantity": "5", "Price": "", "Fees & Comm": "", "Amount": ""}]})
+            aj_ = json.dumps({"Transactions": [{"Date": "01/15/2024", "Action": "Deposit", "Symbol": "XYZZ",
+                                                "TransactionDetails": [{"Details": {"FairMarketValuePrice": "$10.00"}}]}]})
+            cases.append({"op": "convert", "transactions_json": tj, "awards_json": aj_, "reparse": False})
+            cnt["convert_rsu_rows_at_calendar_extremes"] += 1
+            continue
         aj = None
         if rng.random() < 0.5:
             aj = rng.choice([soup(rng), "{}", '{"Transactions": []}', '{"Transactions": [{"Date": "x", "Symbol": "A"}]}',
